@@ -32,6 +32,10 @@ func init() {
 }
 
 func runC08(c *Ctx) {
+	defer ruleLengthIsByteLength(c, "C08.21")
+	defer ruleSizeWithBytes(c, "C08.18")
+	defer ruleStoredBytesImmutable(c, "C08.19")
+	defer ruleReadRecordOwnsPayload(c, "C08.20")
 	c08ValidateDominates(c, "C08.1")
 	c08IntRange(c, "C08.2")
 	c08SizeGuard(c, "C08.3")
@@ -606,7 +610,10 @@ func c08Literals(c *Ctx, rule string) {
 		for _, call := range f.Calls(body, false, "strconv.ParseInt") {
 			if len(call.Args) == 3 && exprKey(call.Args[0]) == recvName(f)+".Text" {
 				base := f.constOf(call.Args[1])
-				if base != nil && base.String() == "10" {
+				bits := f.constOf(call.Args[2])
+				if base != nil && base.String() == "10" && bits != nil && bits.String() != "64" {
+					detail = "ParseInt with bit size " + exprKey(call.Args[2]) + ": a BIGINT literal above that width is refused although the column can hold it (the INT range is Validate's business, not the scanner's)"
+				} else if base != nil && base.String() == "10" {
 					ok = true
 				} else {
 					detail = "ParseInt with base " + exprKey(call.Args[1]) + ": literals with a leading 0 / 0x are read in another base (010 is stored as 8)"
@@ -918,6 +925,8 @@ func coneSentinels(w *World, roots ...*Func) []string {
 }
 
 func runC14(c *Ctx) {
+	defer rulePrecheckChecksEveryRow(c, "C14.18")
+	defer ruleStoredBytesImmutable(c, "C14.17")
 	c14RowValidationFirst(c, "C14.1")
 	c08SizeGuardOpt(c, "C14.1s", false)
 	c14StatementLoops(c, "C14.2")
